@@ -569,7 +569,23 @@ func parseStartDate(startDate *string, timezone *time.Location) (bool, time.Time
 	y, _ := strconv.Atoi(startDateMatch[1])
 	m, _ := strconv.Atoi(startDateMatch[2])
 	d, _ := strconv.Atoi(startDateMatch[3])
+	if t := time.Date(y, time.Month(m), d, 0, 0, 0, 0, timezone); t.Day() != d {
+		// Local midnight does not exist on this date (daylight saving time starts at 00:00 in this
+		// timezone) and time.Date has returned an instant of the previous day.
+		if u := startOfDayAfterGap(t); u.Day() == d {
+			return true, u
+		}
+	}
 	return true, time.Date(y, time.Month(m), d, 0, 0, 0, 0, timezone)
+}
+
+// startOfDayAfterGap takes the instant time.Date returns for a local midnight that was skipped by a
+// daylight saving time transition - an instant shortly before the transition - and returns the
+// first instant of the day that follows, which is the instant of the transition.
+func startOfDayAfterGap(t time.Time) time.Time {
+	_, offsetBefore := t.Zone()
+	_, offsetAfter := t.Add(24 * time.Hour).Zone()
+	return t.Add(time.Duration(offsetAfter-offsetBefore) * time.Second)
 }
 
 func parseVehicleDescriptor(vehicleDesc *gtfsrt.VehicleDescriptor) *VehicleID {
